@@ -346,6 +346,11 @@ func (am *AccountingManager) StopSession(sessionID string, terminateCause uint32
 		am.sessionsMu.Unlock()
 		return fmt.Errorf("session not found: %s", sessionID)
 	}
+	if session.StopPending {
+		// Another caller is already sending the Stop of this session
+		am.sessionsMu.Unlock()
+		return fmt.Errorf("session already stopping: %s", sessionID)
+	}
 
 	// Mark as stop pending for crash recovery
 	session.StopPending = true
